@@ -177,6 +177,10 @@ def run(chk, binary):
         if nested:
             s1 = "repeat 2 {\n repeat %d {\n%s\n}\n move \"l\"\n}\n" % (k, b)
             s2 = (("%s\n" % b) * k + 'move "l"\n') * 2
+        elif rng.random() < 0.5:
+            # the count comes from a variable (0 included: the body is then not run at all)
+            s1 = "let k = %d\nrepeat $k {\n%s\n}\n" % (k, b)
+            s2 = ("%s\n" % b) * k
         else:
             s1 = "repeat %d {\n%s\n}\n" % (k, b)
             s2 = ("%s\n" % b) * k
